@@ -398,9 +398,12 @@ def transpiration(
                 if AerComp < 0:
                     AerComp = 0
 
-                AerComp = (fAer + (NewCond.aer_days_comp[comp] - 1) * AerComp) / (
-                    fAer + NewCond.aer_days_comp[comp] - 1
-                )
+                if (fAer + NewCond.aer_days_comp[comp] - 1) > 0:
+                    # (the weight is zero on the first day when LagAer = 1: the
+                    # compartment's own factor applies, not 0/0)
+                    AerComp = (fAer + (NewCond.aer_days_comp[comp] - 1) * AerComp) / (
+                        fAer + NewCond.aer_days_comp[comp] - 1
+                    )
             else:
                 # No aeration stress as number of submerged days does not
                 # exceed threshold for initiation of aeration stress
